@@ -209,6 +209,7 @@ structure Pending where
   cn : List Nat
   tcode : Nat
   rid : Option Nat
+  noElem : Bool := false       -- registered for a name that is not in the TOC (`element` is None in the closure)
   deriving DecidableEq, Repr
 
 structure Host where
@@ -240,15 +241,17 @@ inductive MiscResult
 
 /-- what a step did (observable at the API, on the wire, or by the registered callbacks) -/
 inductive Out
-  | enq (p : Pkt)                            -- `request_queue.put(p)`
+  | enq (p : Pkt) (e : Option Pending)       -- `request_queue.put(p)`; `e`: the reply handler registered with it (misc requests)
   | tx (p : Pkt)                             -- `cf.send_packet(p, expected_reply=...)`
   | raised (e : PyErr)                       -- the API call raised
   | ret (v : Val)                            -- `get_value` returned `str(v)`
   | blocked                                  -- the call waits for `_initialized` (60 s wall-clock timeout: outside the model)
   | update (cb : Nat) (cn : List Nat) (v : Val)   -- update callback `cb("group.name", str(v))`
   | allUpdated                               -- `all_updated.call()`
-  | misc (rid : Nat) (cn : List Nat) (r : MiscResult)   -- the caller's misc callback
-  | released                                 -- `_lock_pattern = None; wait_lock.release()`
+  | misc (rid : Nat) (cn : List Nat) (r : MiscResult)   -- the caller's misc callback, called by a reply handler
+  | refusedCb (rid : Nat) (cn : List Nat)    -- `persistent_store` of an unknown name: `callback(name, False)` at once, nothing sent
+  | rxd (p : Pkt)                            -- the incoming-packet thread took `p` from the link
+  | released (rep : Pkt)                     -- `_lock_pattern = None; wait_lock.release()` while handling `rep`
   | cbError (e : PyErr)                      -- an exception escaped a port callback (logged by the dispatcher)
   deriving DecidableEq, Repr
 
@@ -354,7 +357,7 @@ def setValue (strToF64 : List Char → Except PyErr Nat) (h : Host) (cn : List N
   | none =>
     match setValuePkt strToF64 h cn v with
     | .error e => (h, [.raised e])
-    | .ok p => (enqueue h p, [.enq p])
+    | .ok p => (enqueue h p, [.enq p none])
 
 /-- `Param.get_value(complete_name)` -/
 def getValue (h : Host) (cn : List Nat) (inCb : Bool) : Host × List Out :=
@@ -381,7 +384,7 @@ def requestUpdate (h : Host) (cn : List Nat) (proto4 : Bool) : Host × List Out 
     | .error e => (h1, [.raised e])
     | .ok ib =>
       let p : Pkt := { chan := Gen.C04.READ_CHANNEL, data := ib }
-      (enqueue h1 p, [.enq p])
+      (enqueue h1 p, [.enq p none])
 
 /-- which of the three reply-routing mechanisms the code uses, and how the dispatcher iterates -/
 structure Variant where
@@ -407,9 +410,9 @@ def sendMisc (v : Variant) (h : Host) (k : MiscKind) (e : Elem) (cn : List Nat) 
     if v.routing = 2 || rid.isNone then (h, [.raised er])
     else ({ h with pending := h.pending ++ [{ kind := k, ident := e.ident, cn := cn, tcode := e.tcode, rid := rid }] }, [.raised er])
   | .ok p =>
-    let reg := v.routing = 2 || rid.isSome
-    let h1 := if reg then { h with pending := h.pending ++ [{ kind := k, ident := e.ident, cn := cn, tcode := e.tcode, rid := rid }] } else h
-    (enqueue h1 p, [.enq p])
+    let ent : Pending := { kind := k, ident := e.ident, cn := cn, tcode := e.tcode, rid := rid }
+    if v.routing = 2 || rid.isSome then (enqueue { h with pending := h.pending ++ [ent] } p, [.enq p (some ent)])
+    else (enqueue h p, [.enq p none])
 
 /-- `get_default_value(complete_name, callback)`: no check that the element exists (`AttributeError` on `None`) -/
 def getDefault (v : Variant) (h : Host) (cn : List Nat) (rid : Nat) : Host × List Out :=
@@ -417,7 +420,7 @@ def getDefault (v : Variant) (h : Host) (cn : List Nat) (rid : Nat) : Host × Li
   | none =>
     -- repaired code: `element.ident` is evaluated first; one-shot code: the callback is registered, then `element.ident` raises
     if v.routing = 2 then (h, [.raised .attributeError])
-    else ({ h with pending := h.pending ++ [{ kind := .getDefault, ident := 0, cn := cn, tcode := 16, rid := some rid }] },
+    else ({ h with pending := h.pending ++ [{ kind := .getDefault, ident := 0, cn := cn, tcode := 0, rid := some rid, noElem := true }] },
           [.raised .attributeError])
   | some e => sendMisc v h .getDefault e cn (some rid)
 
@@ -431,7 +434,7 @@ def getState (v : Variant) (h : Host) (cn : List Nat) (rid : Nat) : Host × List
 def store (v : Variant) (h : Host) (cn : List Nat) (rid : Option Nat) : Host × List Out :=
   match elemByName h.toc cn with
   | none => match rid with
-    | some r => (h, [.misc r cn (.status false)])
+    | some r => (h, [.refusedCb r cn])
     | none => (h, [.raised .typeError])
   | some e => if !e.persistent then (h, [.raised .attributeError]) else sendMisc v h .store e cn rid
 
@@ -491,27 +494,38 @@ def updSend (h : Host) : Option (Host × List Out) :=
 
 def release (h : Host) : Host := { h with pattern := none, lockHeld := false }
 
+/-- `if command == MISC_VALUE_UPDATED: self.updated_callback(pk)` -/
+def notifUpdate (h : Host) (p : Pkt) (c : UInt8) : Except PyErr (Host × List Out) :=
+  if c.toNat = Gen.C04.MISC_VALUE_UPDATED then paramUpdated h p else .ok (h, [])
+
+/-- `release_pattern` of a read / write reply -/
+def relPattern (updV2 : Bool) (p : Pkt) : List UInt8 :=
+  if updV2 then p.data.take Gen.C04.relLenV2 else p.data.take Gen.C04.relLenV1
+
+/-- `pk.data = pk.data[:2] + pk.data[3:]` for a V2 read reply: the status byte is removed, in place -/
+def stripStatus (updV2 : Bool) (p : Pkt) : Pkt :=
+  if updV2 ∧ p.chan = Gen.C04.READ_CHANNEL then { p with data := p.data.take 2 ++ p.data.drop 3 } else p
+
 /-- `_ParamUpdater._new_packet_cb(pk)`; also returns the packet as later callbacks see it (a V2 read reply has its
 status byte removed in place) -/
 def updaterRx (h : Host) (p : Pkt) : Host × List Out × Pkt :=
   if p.chan = Gen.C04.READ_CHANNEL ∨ p.chan = Gen.C04.WRITE_CHANNEL then
-    let rel := if h.updV2 then p.data.take Gen.C04.relLenV2 else p.data.take Gen.C04.relLenV1
-    let p' : Pkt := if h.updV2 ∧ p.chan = Gen.C04.READ_CHANNEL then { p with data := p.data.take 2 ++ p.data.drop 3 } else p
+    let rel := relPattern h.updV2 p
+    let p' : Pkt := stripStatus h.updV2 p
     if h.pattern = some rel then
       match paramUpdated h p' with
-      | .ok (h', outs) => (release h', outs ++ [.released], p')
+      | .ok (h', outs) => (release h', outs ++ [.released p], p')
       | .error e => (h, [.cbError e], p')
     else (h, [], p')
   else if p.chan = Gen.C04.MISC_CHANNEL then
     match p.data with
     | [] => (h, [.cbError .indexError], p)
     | c :: _ =>
-      let r := if c.toNat = Gen.C04.MISC_VALUE_UPDATED then paramUpdated h p else .ok (h, [])
-      match r with
+      match notifUpdate h p c with
       | .error e => (h, [.cbError e], p)
       | .ok (h', outs) =>
         if h'.pattern = some (p.data.take Gen.C04.relLenMisc) then
-          if h'.lockHeld then (release h', outs ++ [.released], p)
+          if h'.lockHeld then (release h', outs ++ [.released p], p)
           else ({ h' with pattern := none }, outs ++ [.cbError .other], p)      -- `release()` of an unlocked lock
         else (h', outs, p)
   else (h, [], p)
@@ -526,7 +540,7 @@ def handleMisc (e : Pending) (p : Pkt) : List Out × Bool :=
     | none, _ => ([.cbError .indexError], false)
     | some b, some r =>
       if b.toNat = Gen.C04.ENOENT then ([.misc r e.cn (.dflt none)], true)
-      else if (typeFmt e.tcode).isNone then ([.cbError .attributeError], false)      -- `element` is None
+      else if e.noElem then ([.cbError .attributeError], false)      -- `element.pytype` with `element` None
       else match unpack1 fmt (p.data.drop 3) with
         | .ok v => ([.misc r e.cn (.dflt (some v))], true)
         | .error er => ([.cbError er], false)
@@ -563,19 +577,26 @@ def miscRxFifo (h : Host) (p : Pkt) : Host × List Out :=
     | none => (h, [])
     | some e => ({ h with pending := h.pending.erase e }, (handleMisc e p).1)
 
-/-- the test of a one-shot `new_packet_cb`: `none` = raises (`pk.data[0]` on an empty packet) -/
-def oneShotMatches (matchId : Bool) (e : Pending) (p : Pkt) : Option Bool :=
-  if p.chan ≠ Gen.C04.MISC_CHANNEL then some false
+/-- the test of a one-shot `new_packet_cb`:
+`pk.channel == MISC_CHANNEL and pk.data[0] == <command> [and struct.unpack('<H', pk.data[1:3])[0] == element.ident]`;
+an error is the exception it raises (`pk.data[0]` on an empty packet, `unpack` on a short one, `element` None) -/
+def oneShotMatches (matchId : Bool) (e : Pending) (p : Pkt) : Except PyErr Bool :=
+  if p.chan ≠ Gen.C04.MISC_CHANNEL then .ok false
   else match p.data with
-    | [] => none
-    | c :: _ => some (c.toNat == e.kind.cmd && (!matchId || leVal ((p.data.drop 1).take 2) == e.ident))
+    | [] => .error .indexError
+    | c :: _ =>
+      if c.toNat ≠ e.kind.cmd then .ok false
+      else if !matchId then .ok true
+      else if ((p.data.drop 1).take 2).length ≠ 2 then .error .structError
+      else if e.noElem then .error .attributeError
+      else .ok (leVal ((p.data.drop 1).take 2) == e.ident)
 
 /-- call one one-shot callback; it unregisters itself when its handler ran to the end -/
 def oneShotCall (matchId : Bool) (h : Host) (e : Pending) (p : Pkt) : Host × List Out :=
   match oneShotMatches matchId e p with
-  | none => (h, [.cbError .indexError])
-  | some false => (h, [])
-  | some true =>
+  | .error er => (h, [.cbError er])
+  | .ok false => (h, [])
+  | .ok true =>
     let (outs, done) := handleMisc e p
     (if done then { h with pending := h.pending.erase e } else h, outs)
 
@@ -606,6 +627,6 @@ first), then the misc reply routing; exceptions are caught per callback -/
 def rx (v : Variant) (h : Host) (p : Pkt) : Host × List Out :=
   let (h1, o1, p1) := updaterRx h p
   let (h2, o2) := miscRx v h1 p1
-  (h2, o1 ++ o2)
+  (h2, .rxd p :: (o1 ++ o2))
 
 end CfVerif.C04
